@@ -16,6 +16,7 @@ import Driver.Ops.Group
 import Driver.Ops.Fdef
 import Driver.Ops.ReportText
 import Driver.Ops.Priced
+import Driver.Ops.DecOp
 /-! Line-protocol driver of the model: one JSON case per input line, one JSON answer per line.
     To add an op: write `Driver/Ops/<Name>.lean`, import it here, add one line to `opTable`
     (or to `outputTable` for a new output kind of op `run`). -/
@@ -57,7 +58,8 @@ def opTable : List (String × (Json → R Json)) := [
   ("tsfmt", Ops.opTsfmt),
   ("cfg", Ops.opCfg),
   ("fdef", Ops.opFdef),
-  ("b64", Ops.opB64)
+  ("b64", Ops.opB64),
+  ("dec", Ops.opDec)
 ]
 
 def dispatch (j : Json) : R Json := do
